@@ -199,7 +199,16 @@ Definition is_inflight_real_req (a : oapp) (x : oalloc) : bool :=
   negb (oa_ph x) && negb (oa_release x =? 0) && oa_allocated x &&
   match find_alloc (ap_allocs a) (oa_key x) with Some _ => false | None => true end.
 
+(* 4: an application becomes terminated (moves to the completed list) while it still lists allocations, e.g. a
+      Hard gang application goes Failing -> Failed when its last placeholder is removed although a real allocation
+      whose TIMEOUT release the shim has not confirmed yet is still bound: the node keeps it for ever *)
+Definition terminated_with_allocs (pre : ostate) (st : ostep) : bool :=
+  existsb (fun a => match ap_allocs a with [] => false | _ => true end &&
+                    negb (existsb (fun b => (ap_id b =? ap_id a) && match ap_allocs b with [] => false | _ => true end) (s_completed pre)))
+          (s_completed (st_obs st)).
+
 Definition known_trigger (pre : ostate) (st : ostep) : option N :=
+  if terminated_with_allocs pre st then Some 4 else
   match st_op st with
   | OpAlloc r =>
       match find_app pre (rq_app r) with
